@@ -23,6 +23,32 @@ Theorem append_only_above_old_end :
 Proof. exact append_only_above_old_end_lemma. Qed.
 Print Assumptions append_only_above_old_end.
 
+(** 1a. FULL.  The other half of the first sentence, for EVERY prefix j of the pre-flush write log and for the wide
+    class of sessions (creations under explicit or library-chosen refs, reads and copies, deletions, rewrites of the
+    records of existing objects through descriptor reuse as Vdetach / VSdetach do them): if the process dies after any
+    j of these writes, the file still opens and every previously stored object reads back unchanged.  (Writes at or
+    above the old end cannot touch an old DD block or old data of a well-formed file.) *)
+Theorem prefix_safe_before_flush :
+  forall img bl fr ops fr1 pre j,
+    wf_image img = true -> parse_file img = Some bl -> load img true = Some fr -> forallb op_ok1 ops = true ->
+    run_ops fr ops = (fr1, pre) ->
+    preserves img (apply_log img (firstn j pre)) = true.
+Proof. exact prefix_safe_before_flush_lemma. Qed.
+Print Assumptions prefix_safe_before_flush.
+
+(** the only old element of the 36-byte example file is (30,1): the session rewrites its record through descriptor
+    reuse, reads, adds an element under a library-chosen ref and copies one (a new DD block is needed): 7 writes,
+    all at or above 36 *)
+Example prefix_safe_before_flush_hypotheses_met :
+  wf_image ex_img = true /\ parse_file ex_img = Some ex_bl /\ load ex_img true = Some ex_fr /\
+  forallb op_ok1 [OpRewrite 30 1 3 [7; 8; 9]; OpGet; OpPutNew 800 2 [7; 7]; OpCopy 801 5 1 [9]] = true /\
+  map fst (snd (run_ops ex_fr [OpRewrite 30 1 3 [7; 8; 9]; OpGet; OpPutNew 800 2 [7; 7]; OpCopy 801 5 1 [9]])) =
+    [36; 39; 39; 41; 47; 72; 71].
+Proof.
+  destruct ex_hyps_theorem1 as (A & B & _ & _ & _ & _ & W).
+  split; [exact W|]. split; [exact A|]. split; [exact B|]. vm_compute. split; reflexivity.
+Qed.
+
 Example append_only_above_old_end_with_delete_hypotheses_met :
   forallb op_ok1 [OpDel 30 1; OpPutNew 800 2 [7; 7]; OpPut 801 5 1 [9]] = true /\
   length (snd (run_ops ex_fr [OpDel 30 1; OpPutNew 800 2 [7; 7]; OpPut 801 5 1 [9]])) = 2%nat.
